@@ -225,6 +225,8 @@ def check_builtin(case):
             Xd = X.astype(np.int64) if case.get("counts_int64") else X  # the detector gets integers, the reference floats
             det.fit(Xd)
             Xp = K.used_buffer(det, Xd, history.endswith("frame")) if history and history.startswith("used_buffer") else Xd
+            if history and history.startswith("predicted_on"):
+                K.related_predict(det, Xd, history)
             cpts = det.predict(Xp)["ilocs"].tolist()
             scores = det.transform_scores(Xp).to_numpy()
             penalty = float(det.penalty_)
